@@ -524,6 +524,31 @@ CORPUS = [
 REPLAYABLE = ("distn.rexp", "distn.rpois", "base_ode_model.BaseOdeModel.parameters(setter)")
 
 
+def sessions_check(hashseeds):
+    """harness/c16_hash.py (three differently distributed random parameters given by name; numpy.random.seed(s); solve_determ) run in
+    separate interpreter sessions that differ only in PYTHONHASHSEED: identical output; different numpy seeds: different output"""
+    import subprocess
+    outs = {}
+    for h in hashseeds:
+        env = dict(os.environ, PYTHONHASHSEED=str(h))
+        r = subprocess.run([sys.executable, "-W", "ignore", os.path.join(common.VERIF, "harness", "c16_hash.py")],
+                           capture_output=True, text=True, env=env, timeout=900, cwd=common.VERIF)
+        line = [l for l in r.stdout.splitlines() if l.startswith("C16HASH ")]
+        if not line:
+            raise common.InternalError("session probe produced no result: " + (r.stderr or r.stdout)[-300:])
+        outs[h] = json.loads(line[-1][8:])
+    first = outs[hashseeds[0]]
+    if first["5"] == first["6"]:
+        return "numpy.random.seed(5) and numpy.random.seed(6) give the same runs %s" % json.dumps(first["5"]["runs"][0])[:120]
+    for h in hashseeds[1:]:
+        if outs[h] != first:
+            k = [s_ for s_ in ("5", "6") if outs[h][s_] != first[s_]][0]
+            return ("the same program after numpy.random.seed(%s) (three random parameters given by name, solve_determ with 3 iterations) gives "
+                    "a first run ending in %s in a session with PYTHONHASHSEED=%d and in %s with PYTHONHASHSEED=%d"
+                    % (k, json.dumps(first[k]["runs"][0][-1]), hashseeds[0], json.dumps(outs[h][k]["runs"][0][-1]), h))
+    return None
+
+
 def run(ck):
     import gen_sources
     ck.rule = ("cases = (model in {SIR, SIR birth-death, SEIR, linear chain of 3-5}, integer initial state with N in 60..400, "
@@ -602,6 +627,12 @@ def run(ck):
                 m = build(case["model"]); set_params(m, case)
                 (Y, runs), _ = do_run(m, case, case["seeds"][0])
                 mean_cases.append((case, coq_mean_case(case, Y, runs)))
+    # ---- the same seeded program in interpreter sessions with different string-hash seeds
+    inp = dict(kind="sessions", hashseeds=[1, 2, 4, 7])
+    ck.case(inp, nontrivial=True)
+    bad = sessions_check(inp["hashseeds"])
+    if bad:
+        ck.violation("seeded-run-differs-between-sessions", bad, inp)
     ck.notes["input_distribution"] = dist
     ck.notes["different_seed_comparisons"] = int(ndiff)
     ck.notes["mean_tolerance"] = ("|Y - exact mean| <= %g * mean|x_i| entrywise; worst observed ratio %.3g" % (MEAN_TOL, worst_mean))
@@ -639,5 +670,7 @@ def replay(ck, data):
     case = data["input"]
     if case is None:
         return None
+    if case.get("kind") == "sessions":
+        return sessions_check(case["hashseeds"])
     j = judge(case)
     return j[1] if j else None
